@@ -61,11 +61,19 @@ func codecSeed(cfg *PropCfg, tier string, seed uint64, known []proto.KnownFindin
 	if err := w.PatchGoMod(); err != nil {
 		return err
 	}
-	if err := w.InstrumentRepo(codecRepoInstr); err != nil {
+	instr := codecRepoInstr
+	if cfg.RepoInstr != nil {
+		instr = cfg.RepoInstr
+	}
+	if err := w.InstrumentRepo(instr); err != nil {
 		return fmt.Errorf("instrumenting the working tree: %w", err)
 	}
 	specs := population(cfg, tier, seed)
-	built, node, err := w.BuildPrograms(specs, genInstr, nil)
+	buildSpecs := specs
+	if cfg.TextOnly {
+		buildSpecs = nil
+	}
+	built, node, err := w.BuildPrograms(buildSpecs, genInstr, nil)
 	if err != nil {
 		return err
 	}
